@@ -19,4 +19,4 @@
 package simhook
 
 // Yield marks a point where a simulator may park the calling goroutine. No-op in normal builds.
-func Yield(point, key string) {}
+func Yield(point string, key ...string) {}
